@@ -570,6 +570,8 @@ def run(ctx):
         expect_rev = {"lt": GT, "eq": EQ, "gt": LT}
         for name, exp in (("state_document_order", expect_doc), ("transition_document_order", expect_doc),
                           ("invoke_document_order", expect_doc), ("state_entry_order", expect_doc), ("state_exit_order", expect_rev)):
+            if name == "state_entry_order" and not F.has_fn(ALG + name):
+                continue   # the one-line wrapper was inlined: callers sort by state_document_order itself (is_entry_order)
             fn = F.fn(ALG + name)
             tab = comparator_table(F, fn)
             got = {k: tab.get(k) for k in ("lt", "eq", "gt")}
@@ -612,7 +614,7 @@ def run(ctx):
             if ste is None or local_of(base, NO_T) != ste:
                 continue
             n += 1
-            ok = cmp_name == "state_entry_order" and order == (0, 1)
+            ok = is_entry_order(cmp_name, order)
             ctx.ob("R02.2", site_key(en, "loop over statesToEnter runs in entry order", n), ok, line_of(lp),
                    "iterates %s sorted by %s%s" % (".".join(names), cmp_name, order))
         ctx.floor("R02.2", "loops over statesToEnter in enterStates", n, 1)
@@ -633,7 +635,7 @@ def run(ctx):
                 of_state = bool(f) and f[1] == "invoke" and is_call(st, ALG + "get_state_by_id") and local_of(st["a"][0]) == outer["pat"].get("b")
                 sti = global_field_expr(obase, "statesToInvoke")
                 args_ok = local_of(c["a"][1]) == outer["pat"].get("b") and local_of(c["a"][2]) == inner["pat"].get("b")
-                ok = of_state and sti and icmp == "invoke_document_order" and iord == (0, 1) and ocmp == "state_entry_order" and oord == (0, 1) and args_ok
+                ok = of_state and sti and icmp == "invoke_document_order" and iord == (0, 1) and is_entry_order(ocmp, oord) and args_ok
                 detail = "statesToInvoke sorted by %s%s: %s; invokes of that state sorted by %s%s: %s; invoke(state, inv): %s" % (
                     ocmp, oord, sti, icmp, iord, of_state, args_ok)
             ctx.ob("R02.2", site_key(ml, "invoke phase in entry order, invokes in document order"), ok, line_of(c), detail)
@@ -877,14 +879,15 @@ def run(ctx):
             for bi, t in hash_iteration_sites(fn):
                 (inside if in_region(fn) else outside).append((fn, bi, t))
         per_fn = {}
+        import inline
         for fn, bi, t in inside:
-            owner = fn.path
+            owner = inline.owner_of(F, fn.path)   # a site moved into a new private helper is still its caller's audited site
             k = per_fn[owner] = per_fn.get(owner, 0) + 1
             aud = AUDITED_HASH_ITER.get(owner)
             aty = (t.get("argtys") or [""])[0]
             ok = aud is not None and k == 1 and aud[0] in aty
             why = ("audited: " + aud[1]) if ok else "iteration over %s in hash order; call chain: %s" % (aty, " -> ".join(cg.witness(seen, owner)[-3:]))
-            ctx.ob("R02.6", site_key(fn, "hash-order iteration", k), ok, "%s:%d" % (t["s"][6], t["s"][3]), why)
+            ctx.ob("R02.6", "%s|hash-order iteration|%d" % (owner, k), ok, "%s:%d" % (t["s"][6], t["s"][3]), why)
         ctx.extra["hash_iterations_in_region"] = len(inside)
         ctx.extra["hash_iterations_outside_region"] = len(outside)
         # positive control
